@@ -223,3 +223,64 @@ def h_expand_many(fault: int, fpos: int, late: bool) -> str:
         return snap_links(ds)
     finally:
         LATE = saved
+
+
+def h_expand_nested(inner_first: bool, twice: bool, extra: bool) -> str:
+    """
+    post: _ == ""
+    """
+    # a referenced element NESTED inside another referenced element: creator#idA > individualName#idC, with one reference to each
+    fresh()
+    ds = Node("dataset", id="ds")
+    ds.add_child(Node("title", id="t", content="T"))
+    a = _party("creator", "A", SRC_A, "idA")
+    a.children[0].add_attribute("id", "idC")            # individualName#idC inside creator#idA
+    ds.add_child(a)
+    outer = Node("contact", id="RO")
+    outer.add_child(Node("references", id="RO_ref", content="idA"))
+    inner_holder = Node("associatedParty", id="RI")
+    inner = Node("individualName", id="RI_in")
+    inner.add_child(Node("references", id="RI_ref", content="idC"))
+    inner_holder.add_child(inner)
+    inner_holder.add_child(Node("role", id="RI_role", content="editor"))
+    second = None
+    if twice:
+        second = Node("contact", id="RO2")
+        second.add_child(Node("references", id="RO2_ref", content="idA"))
+    # document order: associatedParty precedes contact in a dataset; 'inner_first' swaps which reference sits in which element kind
+    if inner_first:
+        ds.add_child(inner_holder)
+        ds.add_child(outer)
+    else:
+        outer.name = "associatedParty"
+        inner_holder.name = "contact"
+        ds.add_child(outer)
+        ds.add_child(inner_holder)
+    if second is not None:
+        ds.add_child(second)
+    if extra:
+        ds.add_child(_party("contact", "K", SRC_B))
+    a_snap = snap(a)
+    before = snap(ds)
+    try:
+        references.expand(ds)
+    except Exception as e:
+        changed = snap(ds) != before
+        return "expand raised %s on a tree whose references all resolve to exactly one id (%s)%s" % (
+            type(e).__name__, e, "; the tree was left modified" if changed else "")
+    if snap(a) != a_snap:
+        return "the referenced element was modified"
+    want_outer = [snap(c, ids=False) for c in a.children]
+    for r in [outer] + ([second] if second is not None else []):
+        if [snap(c, ids=False) for c in r.children] != want_outer:
+            return "referrer %s: %r, expected copies of the referenced creator's children" % (r.id, [c.name for c in r.children])
+    want_inner = [snap(c, ids=False) for c in a.children[0].children]
+    if [snap(c, ids=False) for c in inner.children] != want_inner:
+        return "nested referrer: %r, expected copies of individualName's children" % [c.name for c in inner.children]
+    if [c.name for c in inner_holder.children] != ["individualName", "role"]:
+        return "children of the element holding the nested referrer changed: %r" % [c.name for c in inner_holder.children]
+    left = []
+    ds.find_all_descendants("references", left)
+    if left:
+        return "references node(s) left behind"
+    return snap_links(ds)
